@@ -147,6 +147,32 @@ Definition collect_outcomes (run : handler_run) (sel : list whandler) : outcomes
 Definition collect_warnings (run : handler_run) (sel : list whandler) : list string :=
   flat_map (fun h => fst (run h)) sel.
 
+(* ---------- which outcomes reach build_response (specification side of `collect_outcomes`) ---------- *)
+
+(* the LAST selected handler carrying this id: its outcome is the one the dict keeps *)
+Fixpoint last_by_id (id : string) (sel : list whandler) : option whandler :=
+  match sel with
+  | [] => None
+  | h :: rest =>
+      match last_by_id id rest with
+      | Some h' => Some h'
+      | None => if String.eqb id (h_id h) then Some h else None
+      end
+  end.
+
+(* the ids of the selected handlers in order of first occurrence: the key order of the dict *)
+Fixpoint ids_first (sel : list whandler) : list string :=
+  match sel with
+  | [] => []
+  | h :: rest => h_id h :: filter (fun i => negb (String.eqb i (h_id h))) (ids_first rest)
+  end.
+
+Definition effective_outcome (run : handler_run) (sel : list whandler) (id : string) : option herror :=
+  match last_by_id id sel with Some h => snd (run h) | None => None end.
+
+Definition effective_outcomes (run : handler_run) (sel : list whandler) : outcomes :=
+  map (fun id => (id, effective_outcome run sel id)) (ids_first sel).
+
 Section Serve.
   Variable from_diff : json -> json -> list jop.
 
@@ -202,6 +228,20 @@ Fixpoint jops_eqb (a b : list jop) : bool :=
 Definition ojops_eqb (a b : option (list jop)) : bool :=
   match a, b with Some x, Some y => jops_eqb x y | None, None => true | _, _ => false end.
 
+
+Definition herror_eqb (a b : herror) : bool :=
+  Bool.eqb (e_adm a) (e_adm b) && Bool.eqb (e_perm a) (e_perm b) && Bool.eqb (e_temp a) (e_temp b)
+  && String.eqb (e_str a) (e_str b) && String.eqb (e_repr a) (e_repr b)
+  && match e_code a, e_code b with Some x, Some y => Z.eqb x y | None, None => true | _, _ => false end.
+
+Fixpoint outcomes_eqb (a b : outcomes) : bool :=
+  match a, b with
+  | [], [] => true
+  | (i, x) :: a', (j, y) :: b' =>
+      String.eqb i j && match x, y with Some e, Some f => herror_eqb e f | None, None => true | _, _ => false end
+      && outcomes_eqb a' b'
+  | _, _ => false
+  end.
 
 Definition oz_eqb (a b : option Z) : bool :=
   match a, b with Some x, Some y => Z.eqb x y | None, None => true | _, _ => false end.
